@@ -188,6 +188,7 @@ public:
     bool adopt_threads = false;  // threads created through the interposed pthread_create become managed threads
     bool lock_grain = false;     // scheduling points: lock (before), unlock (after), cond wait, thread ops, marks
     bool virtual_clock = false;
+    bool yield_on_clock = false;   // clock_gettime(CLOCK_REALTIME) by a managed thread is a scheduling point
     long long vnow_ns = 1000000000LL * 1000000;   // virtual CLOCK_REALTIME
 
     std::map<const void *, int> mutex_owner;                  // virtual mutex -> owning managed thread
@@ -330,6 +331,11 @@ public:
     int id_of(const thread_ctl *t) const { return t->id; }
     bool is_adopted(int t) const { return _threads[t]->adopted; }
 
+    // thread t is blocked in a timed condition wait that has not been notified (its deadline, else -1)
+    long long timed_wait_deadline(int t) const {
+        auto &x = *_threads[t];
+        return (x.st == st_t::parked && x.is_wait && x.pending.op == op_t::cond_wait && !x.notified) ? x.deadline_ns : -1;
+    }
     // earliest deadline among threads blocked in a timed wait (-1: none)
     long long earliest_deadline() const {
         long long best = -1;
